@@ -659,6 +659,50 @@ def l10_l11(prog, ctx):
                  "masked - usr/ex.conf.d/10-a.conf stays visible although etc/ex.conf.d/10-a.conf exists" % render(st), key="seed-of-merge:key_files[0]")
 
 
+def l10_mask_exclusions(prog, ctx, rule="L10"):
+    """L10 (continued): a later file of the same name masks an earlier one - for EVERY name except the two directory entries "." and
+    "..".  Any other condition next to the name comparison (names starting with a dot, names of a certain length ...) takes files
+    out of the masking that are in the history all the same: the merged read then differs from folding the history."""
+    m = prog.fn("merge_econf_files")
+    walks = _history_walk(m)
+    if len(walks) != 1:
+        return
+    outer0 = walks[0][0]
+    n = 0
+    for c in m.calls(("strcmp", "strcoll")):
+        if not c.within(outer0) or any(a.string_value() is not None for a in c.call_args()):
+            continue
+        # the condition this comparison is part of
+        top = c
+        while top.parent is not None and top.parent.k in ("BinaryOperator", "UnaryOperator", "ParenExpr", "ImplicitCastExpr") and \
+                (top.parent.k != "BinaryOperator" or top.parent.j.get("op") in ("&&", "==", "!=")):
+            top = top.parent
+
+        def conj(e):
+            e2 = e.strip()
+            if e2.k == "BinaryOperator" and e2.j.get("op") == "&&":
+                return conj(e2.children[0]) + conj(e2.children[1])
+            return [e2]
+        parts = conj(top)
+        if len(parts) < 2:
+            continue
+        n += 1
+        bad = None
+        for part in parts:
+            if any(x is c for x in part.walk()):
+                continue
+            calls = [x for x in part.walk() if x.k == "CallExpr"]
+            okp = len(calls) == 1 and calls[0].j.get("callee") in ("strcmp", "strcoll") and any(a.string_value() in (".", "..") for a in calls[0].call_args())
+            if not okp:
+                bad = part
+        if bad is not None:
+            ctx.fail(rule, "every name but \".\" and \"..\" takes part in the masking", bad.where,
+                     "the name comparison is only made when `%s`: files for which that is false are never masked by a later namesake although they are in "
+                     "the history like any other" % render(bad)[:60], key="mask-exclusion")
+        else:
+            ctx.ok(rule, "every name but \".\" and \"..\" takes part in the masking", c.where, "the only other conditions are the comparisons with \".\" and \"..\"")
+
+
 def l13(prog, ctx):
     f = prog.fn("econf_readConfigWithCallback")
     cfg = f.cfg
@@ -678,6 +722,50 @@ def l13(prog, ctx):
         ctx.fail("L13", "a call without project and without config name is refused", reb[0].where,
                  "with config_name NULL/empty the function sets config_name = project; when project is NULL too, NULL reaches strlen() in "
                  "combine_strings() (crash) instead of an error code", key="null-null", path=cfg.describe_path(wp))
+
+
+def l13b(prog, ctx):
+    """L13 (continued): in the drop-ins-only mode (no config name: the project name becomes the config name) the layers are the plain
+    layer directories, not <layer>/<project>: `project` is cleared in that branch, and nothing reads `project` for composing a path
+    before the mode is known."""
+    f = prog.fn("econf_readConfigWithCallback")
+    fo = getattr(f, "original", f)
+    cfg = f.cfg
+    reb = [st for lhs, rhs, st, kind in query.stores(f) if render(lhs) == "config_name" and rhs is not None and render(rhs) == "project"]
+    if not reb:
+        return
+    rb = cfg.block_of(reb[0])
+    clr = [st for lhs, rhs, st, kind in query.stores(f) if render(lhs) == "project" and rhs is not None and rhs.is_null_const()]
+    same_branch = [st for st in clr if cfg.block_of(st) == rb or cfg.dominates(rb, cfg.block_of(st))]
+    if not same_branch:
+        ctx.fail("L13", "drop-ins-only mode: the layers are the plain layer directories", reb[0].where,
+                 "`config_name = project` without `project = NULL`: the layer directories are composed as <layer>/<project>, so "
+                 "<layer>/<project>/<project>.d is searched instead of <layer>/<project>.d", key="dropin-only-project-kept")
+        return
+    # reads of `project` that happen before the mode switch can be reached
+    early = None
+    sw_if = next((a for a in reb[0].ancestors() if a.k == "IfStmt"), None)
+    for u in f.walk():
+        if u.k != "DeclRefExpr" or u.j.get("name") != "project" or u.j.get("dk") != "param":
+            continue
+        if sw_if is not None and u.within(sw_if):
+            continue
+        up = u.up()
+        # tests of the argument itself (project == NULL, strlen(project) == 0 in the refusal at the top) are not compositions
+        if any(a.k in ("IfStmt",) and a.child("cond") is not None and u.within(a.child("cond")) for a in u.ancestors()) and \
+                not any(a.k == "CallExpr" and a.j.get("callee") in ("snprintf", "asprintf", "sprintf", "strcpy", "stpcpy", "strcat", "combine_strings") for a in u.ancestors()):
+            continue
+        ub = cfg.block_of(u)
+        if ub is not None and rb in cfg.reachable(ub) and ub != rb:
+            early = u
+            break
+    if early is not None:
+        ctx.fail("L13", "drop-ins-only mode: the layers are the plain layer directories", early.where,
+                 "`project` is used (%s) before the function has decided whether it is the drop-ins-only mode: there the layer directories must not "
+                 "contain the project name" % render(early.up() or early)[:60], key="dropin-only-project-early")
+    else:
+        ctx.ok("L13", "drop-ins-only mode: the layers are the plain layer directories", same_branch[0].where,
+               "`project = NULL` in the branch that makes the project name the config name; no use of `project` ahead of it")
 
 
 PROBES_INT = ("lstat", "stat", "fstat", "access", "faccessat", "fstatat", "open", "openat")
@@ -908,12 +996,24 @@ def _resolve_len_names(f, lit):
     return False
 
 
+def l2_live_object(prog, ctx):
+    """L2 (continued): the scan for the main file goes on to the next lower layer after ECONF_NOFILE - with an object the gate
+    can fill.  The gate releases the object and clears the pointer when a file that is there cannot be opened; a scan that does
+    not create a new one hands the gate NULL for the lower layer (ownership engine, finding kind `null-object`)."""
+    from rules import own_rules
+    a = own_rules.analyse(prog, HIST)
+    n = own_rules.report(ctx, "L2", "%s: every round of the main-file scan has an object to read into" % HIST, a, only_kinds=("null-object",))
+
+
 def run(prog, ctx):
+    l2_live_object(prog, ctx)
     l18_l19(prog, ctx)
     l1(prog, ctx)
     l2_l5(prog, ctx)
     l6_l9(prog, ctx)
     l10_l11(prog, ctx)
+    l10_mask_exclusions(prog, ctx)
     l13(prog, ctx)
+    l13b(prog, ctx)
     l15_l17(prog, ctx)
     ctx.floor("C01 obligations", len([o for o in ctx.obs if o.rule.startswith("L")]), 20)
